@@ -32,6 +32,11 @@ ScalarOf(pat, i, r) ==
     [] pat = "alt" -> IF i % 2 = 0 THEN Sub(r, One) ELSE PowMI(OfInt(3), 1000 + i, r)
     [] pat = "dup_pairs" -> PowMI(OfInt(3), 1000 + (i \div 2), r)
     [] pat = "small" -> OfInt((i * 7 + 3) % 11)
+    \* short scalars whose highest used byte has its top bit set (the recoding carries into one more window)
+    [] pat = "byte_top" -> OfInt(128 + ((i * 37) % 128))
+    [] pat = "word_top" -> OfInt(65520 + (i % 16))
+    [] pat = "three_top" -> OfInt(16776960 + (i % 251))
+    [] pat = "short_mix" -> OfInt(CASE i % 4 = 0 -> 200 [] i % 4 = 1 -> 65520 [] i % 4 = 2 -> 8388608 [] OTHER -> 5)
 IntMod(b, r) == IF b >= 0 THEN OfInt(b) ELSE Sub(r, OfInt(0 - b))
 \* (a recursive FUNCTION: TLC binds the index to a value at every application, whereas the lazily
 \* evaluated arguments of a recursive operator make a chain of n terms quadratic)
